@@ -234,3 +234,111 @@ Proof.
   destruct (lazy_factorize_ok_or_fuel (fact_fuel a) a) as [E|[l E]]; [contradiction|].
   exists l. split; [exact E|]. exact (lazy_factorize_correct _ _ _ E).
 Qed.
+
+(* ------------------------------------------------------------------ the bases are listed in strictly increasing order *)
+From Coq Require Import Sorted.
+Definition below (f : Z) (acc : list (Z * Z)) : Prop := Forall (fun pe => fst pe < f) acc.
+Definition decreasing (acc : list (Z * Z)) : Prop := StronglySorted (fun x y => fst y < fst x) acc.
+Definition increasing (l : list (Z * Z)) : Prop := StronglySorted (fun x y => fst x < fst y) l.
+
+Lemma below_mono f g acc : f <= g -> below f acc -> below g acc.
+Proof. intros H. apply Forall_impl. intros; lia. Qed.
+
+Lemma sorted_snoc (R : Z * Z -> Z * Z -> Prop) l x :
+  StronglySorted R l -> Forall (fun y => R y x) l -> StronglySorted R (l ++ [x]).
+Proof.
+  induction l as [|y l IH]; cbn [app]; intros Hs Hf.
+  - constructor; constructor.
+  - inversion Hs; subst. inversion Hf; subst. constructor; [apply IH; assumption|].
+    apply Forall_app. split; [assumption|constructor; [assumption|constructor]].
+Qed.
+Lemma increasing_rev acc : decreasing acc -> increasing (rev acc).
+Proof.
+  unfold decreasing, increasing. induction acc as [|x l IH]; intros H; cbn [rev]; [constructor|].
+  inversion H; subst. apply sorted_snoc; [apply IH; assumption|].
+  apply Forall_rev. assumption.
+Qed.
+
+Lemma fact_test_sorted a acc f d a' acc' : 1 < f -> 0 < a -> no_div_below a f ->
+  below f acc -> decreasing acc -> fact_test a acc f = (d, a', acc') ->
+  decreasing acc' /\ below (f + 1) acc' \/ (d = true /\ decreasing acc').
+Proof.
+  intros Hf Hpos Hnodiv Hb Hd. unfold fact_test.
+  destruct (Z.ltb_spec a (f * f)) as [Hlt|Hge].
+  - intros E; injection E as <- <- <-. right. split; [reflexivity|].
+    destruct (Z.ltb_spec 1 a) as [H1|H1]; [|exact Hd].
+    assert (f <= a). { destruct (Z_lt_le_dec a f) as [Hc|]; [|assumption]. exfalso. apply (Hnodiv a); [lia|apply Z.divide_refl]. }
+    constructor; [exact Hd|]. cbn [fst]. revert Hb. apply Forall_impl. intros; lia.
+  - destruct (strip (S (Z.to_nat (Z.log2 a))) a f 0) as [a1 mult].
+    intros E; injection E as <- <- <-. left.
+    destruct (0 <? mult).
+    + split; [constructor; [exact Hd|exact Hb]|].
+      constructor; [cbn [fst]; lia|]. apply (below_mono f); [lia|exact Hb].
+    + split; [exact Hd|]. apply (below_mono f); [lia|exact Hb].
+Qed.
+
+Lemma fact_loop_sorted a0 fuel : forall a acc f6 l,
+  5 <= f6 -> f6 mod 6 = 5 -> inv a0 a acc f6 -> below f6 acc -> decreasing acc ->
+  fact_loop fuel a acc f6 = Ok l -> increasing l.
+Proof.
+  induction fuel as [|fuel IH]; intros a acc f6 l Hf5 Hmod Hinv Hb Hd E; cbn [fact_loop] in E; [discriminate|].
+  destruct (fact_test a acc f6) as [[d1 a1] acc1] eqn:T1.
+  pose proof (fact_test_spec a0 a acc f6 d1 a1 acc1 ltac:(lia) Hinv T1) as H1.
+  pose proof (fact_test_sorted a acc f6 d1 a1 acc1 ltac:(lia) (inv_pos _ _ _ _ Hinv) (inv_nodiv _ _ _ _ Hinv) Hb Hd T1) as S1.
+  destruct d1.
+  { injection E as <-. apply increasing_rev. destruct S1 as [[? _]|[_ ?]]; assumption. }
+  destruct S1 as [[Hd1 Hb1]|[? _]]; [|discriminate].
+  assert (Hinv2 : inv a0 a1 acc1 (f6 + 2)).
+  { replace (f6 + 2) with (f6 + 1 + 1) by lia. apply (inv_skip _ _ _ _ 2 H1); [lia|]. exists ((f6 + 1) / 2). lia. }
+  destruct (fact_test a1 acc1 (f6 + 2)) as [[d2 a2] acc2] eqn:T2.
+  pose proof (fact_test_spec a0 a1 acc1 (f6 + 2) d2 a2 acc2 ltac:(lia) Hinv2 T2) as H2.
+  pose proof (fact_test_sorted a1 acc1 (f6 + 2) d2 a2 acc2 ltac:(lia) (inv_pos _ _ _ _ Hinv2) (inv_nodiv _ _ _ _ Hinv2)
+                (below_mono (f6 + 1) (f6 + 2) acc1 ltac:(lia) Hb1) Hd1 T2) as S2.
+  destruct d2.
+  { injection E as <-. apply increasing_rev. destruct S2 as [[? _]|[_ ?]]; assumption. }
+  destruct S2 as [[Hd2 Hb2]|[? _]]; [|discriminate].
+  apply (IH a2 acc2 (f6 + 6) l); [lia|lia| |apply (below_mono (f6 + 2 + 1)); [lia|exact Hb2]|exact Hd2|exact E].
+  replace (f6 + 6) with (f6 + 2 + 1 + 1 + 1 + 1) by lia.
+  apply (inv_skip _ _ _ _ 2); [|lia|exists ((f6 + 5) / 2); lia].
+  apply (inv_skip _ _ _ _ 3); [|lia|exists ((f6 + 4) / 3); lia].
+  apply (inv_skip _ _ _ _ 2); [|lia|exists ((f6 + 3) / 2); lia].
+  exact H2.
+Qed.
+
+Theorem lazy_factorize_increasing fuel a0 l : lazy_factorize fuel a0 = Ok l -> increasing l.
+Proof.
+  unfold lazy_factorize, big_sign.
+  destruct (Z.eqb_spec a0 0) as [->|Hnz]; [intros E; injection E as <-; constructor|].
+  intros E.
+  set (a := if 0 <? a0 then a0 else - a0) in *.
+  set (acc := if 0 <? a0 then @nil (Z * Z) else [(-1, 1)]) in *.
+  assert (Hinv : inv a0 a acc 2).
+  { subst a acc. destruct (Z.ltb_spec 0 a0); constructor; cbn [fprod fold_right fst snd]; try lia.
+    - intros d Hd; lia.
+    - constructor.
+    - intros d Hd; lia.
+    - constructor; [left; split; reflexivity|constructor]. }
+  assert (Hb : below 2 acc /\ decreasing acc).
+  { subst acc. destruct (0 <? a0); split; try constructor; try constructor; cbn [fst]; try lia; constructor. }
+  destruct Hb as [Hb Hd].
+  assert (E' : (let '(d2, a2, acc2) := fact_test a acc 2 in
+                if d2 then Ok (rev acc2) else
+                let '(d3, a3, acc3) := fact_test a2 acc2 3 in
+                if d3 then Ok (rev acc3) else fact_loop fuel a3 acc3 5) = Ok l).
+  { subst a acc. destruct (0 <? a0); exact E. }
+  clear E. destruct (fact_test a acc 2) as [[d2 a2] acc2] eqn:T2.
+  pose proof (fact_test_spec a0 a acc 2 d2 a2 acc2 ltac:(lia) Hinv T2) as H2.
+  pose proof (fact_test_sorted a acc 2 d2 a2 acc2 ltac:(lia) (inv_pos _ _ _ _ Hinv) (inv_nodiv _ _ _ _ Hinv) Hb Hd T2) as S2.
+  destruct d2.
+  { injection E' as <-. apply increasing_rev. destruct S2 as [[? _]|[_ ?]]; assumption. }
+  destruct S2 as [[Hd2 Hb2]|[? _]]; [|discriminate].
+  change (2 + 1) with 3 in H2, Hb2.
+  destruct (fact_test a2 acc2 3) as [[d3 a3] acc3] eqn:T3.
+  pose proof (fact_test_spec a0 a2 acc2 3 d3 a3 acc3 ltac:(lia) H2 T3) as H3.
+  pose proof (fact_test_sorted a2 acc2 3 d3 a3 acc3 ltac:(lia) (inv_pos _ _ _ _ H2) (inv_nodiv _ _ _ _ H2) Hb2 Hd2 T3) as S3.
+  destruct d3.
+  { injection E' as <-. apply increasing_rev. destruct S3 as [[? _]|[_ ?]]; assumption. }
+  destruct S3 as [[Hd3 Hb3]|[? _]]; [|discriminate].
+  apply (fact_loop_sorted a0 fuel a3 acc3 5 l); [lia|reflexivity| |apply (below_mono (3 + 1)); [lia|exact Hb3]|exact Hd3|exact E'].
+  change 5 with (3 + 1 + 1). apply (inv_skip _ _ _ _ 2 H3); [lia|exists 2; reflexivity].
+Qed.
